@@ -12,6 +12,7 @@ Float ranges and `multipleOf` are decided by the exact-arithmetic correspondence
 import LlgVerif.Proofs.IntRangeMain
 import LlgVerif.Proofs.FloatRange
 import LlgVerif.Proofs.FloatPos
+import LlgVerif.Proofs.FloatHalf
 namespace LlgVerif
 open Rx
 
@@ -459,6 +460,21 @@ theorem c08_float_mixed (l r : FB) (li ri : Bool) (np pp : PR)
     · refine ⟨_, Or.inr rfl, (h2 w).mpr ⟨ip, fd, hfd, hw, ?_, hle⟩⟩
       simp only [geB, LowerB, FB.zero, ↓reduceIte, fracLE, and_true]
       omega
+
+/-- **C08 (only a lower decimal bound, `left ≥ 0`).** -/
+theorem c08_float_ge (l : FB) (li : Bool) (p : PR) (h : floatGe l li = .ok p)
+    (hneg : l.neg = false) (hl : AllDig l.fd) (hln : NTZ l.fd) :
+    LitLang p.rx (fun ip fd => geB li ip fd l.ip l.fd) :=
+  floatGe_nonneg_lang l li p h hneg hl hln
+
+/-- **C08 (only an upper decimal bound, `right > 0`).** -/
+theorem c08_float_le (r : FB) (ri : Bool) (p : PR) (h : floatLe r ri = .ok p)
+    (hneg : r.neg = false) (hr0 : 0 < r.ip ∨ (0 = r.ip ∧ fracLT [] r.fd))
+    (hr : AllDig r.fd) (hrn : NTZ r.fd) (w : List B) :
+    lang p.rx w ↔
+      (∃ ip fd, AllDig fd ∧ w = 45 :: (dec ip ++ fracBytes fd) ∧ (0 < ip ∨ (0 = ip ∧ fracLT [] fd))) ∨
+      (∃ ip fd, AllDig fd ∧ w = dec ip ++ fracBytes fd ∧ leB ri ip fd r.ip r.fd) :=
+  floatLe_pos_lang r ri p h hneg hr0 hr hrn w
 
 /-! non-vacuity: `maximum 0.15` (digits [1,5], inclusive): `0.1`, `0.15`, `0.150`, `0.09` are inside, `0.2` is not -/
 example : fracLE [1] [1, 5] ∧ fracLE [1, 5, 0] [1, 5] ∧ fracLE [0, 9] [1, 5] ∧ ¬ fracLE [2] [1, 5] := by
